@@ -61,12 +61,12 @@ Definition impl_op (k : setk) (all : bool) (l r : table) : table :=
   end.
 
 (* the parser: everything after the first operator is the right operand *)
-Fixpoint parse_right_from (q0 : qry) (l : list (setk * bool * qry)) : qry :=
+Fixpoint parse_right_from {A} (q0 : A) (l : list (setk * bool * A)) : stree A :=
   match l with
-  | [] => q0
-  | (k, all, q) :: l' => QSet k all q0 (parse_right_from q l')
+  | [] => TLeaf q0
+  | (k, all, q) :: l' => TNode k all (TLeaf q0) (parse_right_from q l')
   end.
-Definition parse_right (c : chain) : qry := let '(q0, l) := c in parse_right_from q0 l.
+Definition parse_right {A} (c : gchain A) : stree A := let '(q0, l) := c in parse_right_from q0 l.
 
 (* ------------------------------------------------------------------ predicate.rs *)
 (* result of evaluating an expression: a truth value (None = UNKNOWN), a value (None = the Rust
@@ -402,17 +402,17 @@ Section Db.
             match w with
             | None => match T with [] => SVal VNull | r :: _ => match nth_error r i with Some v => SVal v | None => SUnm end end
             | Some p =>
-                match decor p with
-                | Some _ => SVal VNull                      (* the plan is a join, not a table scan *)
-                | None =>
-                    if own_outer p then SErrq               (* "column not found" *)
-                    else
+                if own_outer p then SErrq                   (* planning fails: "column not found" *)
+                else
+                  match decor p with
+                  | Some _ => SVal VNull                    (* the plan is a join, not a table scan *)
+                  | None =>
                       match filter_opt (fun r => ipass (look_own r) (fun _ => None) p) T with
                       | None => SUnm
                       | Some [] => SVal VNull
                       | Some (r :: _) => match nth_error r i with Some v => SVal v | None => SUnm end
                       end
-                end
+                  end
             end
         end
     | QSel [XCol O _ _] (SSub _) _ => SVal VNull           (* plan source is a subquery *)
@@ -533,15 +533,15 @@ Section Db.
     | _ => MUnm
     end.
 
-  Fixpoint impl_tree (q : qry) : mres :=
-    match q with
-    | QSet k all l r =>
+  Fixpoint impl_tree (t : stree qry) : mres :=
+    match t with
+    | TNode k all l r =>
         match impl_tree l, impl_tree r with
         | MUnm, _ | _, MUnm => MUnm
         | MErr, _ | _, MErr => MErr
         | MRows a, MRows b => MRows (impl_op k all a b)
         end
-    | _ => impl_leaf q
+    | TLeaf q => impl_leaf q
     end.
 
   Definition impl_stmt (c : chain) : mres :=
